@@ -735,15 +735,33 @@ func c17PullRefusedArms(c *fw.Ctx, i int) {
 // "immediately") while an API pull is attached is answered with an error. An error answer reports
 // that nothing happened: the attached pull goes on under its own settings (never auto-stop, here
 // with no consumer at all) and no connection is ever made to the refused call's url.
-func c17PullRefusedWhileAttached(c *fw.Ctx, i int) {
+func c17PullRefusedWhileAttached(c *fw.Ctx, i int) { c17PullRefusedWhile(c, i, false) }
+
+// … and the same while the first attempt is still connecting (the origin withholds Play.Start until the
+// refused call has been answered): the attempt then attaches and goes on under ITS settings.
+func c17PullRefusedWhileInFlight(c *fw.Ctx, i int) { c17PullRefusedWhile(c, i, true) }
+
+func c17PullRefusedWhile(c *fw.Ctx, i int, inFlight bool) {
 	e := c17Start(c, i, false, nil)
 	if e == nil {
 		return
 	}
 	defer e.stop()
-	e.desc = "a second start_relay_pull (other url, auto-stop 0) is refused while a pull is attached"
+	e.desc = fmt.Sprintf("a second start_relay_pull (other url, auto-stop 0) is refused while a pull is %s", map[bool]string{false: "attached", true: "still connecting"}[inFlight])
 	c.Describe("%s", e.desc)
-	c.Cell("pull/refused-start-while-attached")
+	c.Cell("pull/refused-start-while-%s", map[bool]string{false: "attached", true: "in-flight"}[inFlight])
+	var hold chan struct{}
+	if inFlight {
+		hold = make(chan struct{})
+		e.setScript([]ref.StubBehaviour{{WithholdStatus: hold}})
+		defer func() {
+			select {
+			case <-hold:
+			default:
+				close(hold)
+			}
+		}()
+	}
 	other, err := ref.NewRtmpStub(nil)
 	if err != nil {
 		c.Inconclusive("second origin: %v", err)
@@ -756,7 +774,13 @@ func c17PullRefusedWhileAttached(c *fw.Ctx, i int) {
 		c.Violate("pull-api/start-refused", "start_relay_pull on an idle stream answered failure\n"+e.trace(), nil)
 		return
 	}
-	if _, ok := e.s.Notify.Wait(4*time.Second, from, func(ev srv.Event) bool { return ev.Kind == "pull_start" && ev.SessionId == a.Sid }); !ok {
+	if inFlight {
+		if !e.waitAttempts(1, 3*time.Second) {
+			c.Inconclusive("the first attempt never reached the origin\n%s", e.trace())
+			return
+		}
+		time.Sleep(150 * time.Millisecond)
+	} else if _, ok := e.s.Notify.Wait(4*time.Second, from, func(ev srv.Event) bool { return ev.Kind == "pull_start" && ev.SessionId == a.Sid }); !ok {
 		c.Inconclusive("the first pull did not attach\n%s", e.trace())
 		return
 	}
@@ -767,6 +791,13 @@ func c17PullRefusedWhileAttached(c *fw.Ctx, i int) {
 	if strings.Contains(string(resp), `"error_code":0`) {
 		c.Violate("pull-api/start-accepted-with-input", "start_relay_pull answered success although a relay pull is the stream's input\n"+e.trace(), nil)
 		return
+	}
+	if inFlight {
+		close(hold)
+		if _, ok := e.s.Notify.Wait(4*time.Second, from, func(ev srv.Event) bool { return ev.Kind == "pull_start" && ev.SessionId == a.Sid }); !ok {
+			c.Inconclusive("the first pull did not attach after the origin answered\n%s", e.trace())
+			return
+		}
 	}
 	// four ticks: the attached pull stays (nobody stopped it; its own auto-stop setting is "never")
 	_, stopped := e.s.Notify.Wait(4*c17Tick+c17Slack, from, func(ev srv.Event) bool { return ev.Kind == "pull_stop" && ev.SessionId == a.Sid })
@@ -1230,7 +1261,7 @@ func init() {
 	}
 	cat = append(cat, sc{"refused-arms", c17PullRefusedArms})
 	cat = append(cat, sc{"slow-alone", c17PullSlowAlone})
-	cat = append(cat, sc{"refused-while-attached", c17PullRefusedWhileAttached})
+	cat = append(cat, sc{"refused-while-attached", c17PullRefusedWhileAttached}, sc{"refused-while-in-flight", c17PullRefusedWhileInFlight})
 	cat = append(cat, sc{"overtaken", func(c *fw.Ctx, i int) { c17PullOvertaken(c, i, false) }}, sc{"overtaken-static", func(c *fw.Ctx, i int) { c17PullOvertaken(c, i, true) }})
 	cat = append(cat, sc{"kick", func(c *fw.Ctx, i int) { c17PullKick(c, i, false) }}, sc{"kick-static", func(c *fw.Ctx, i int) { c17PullKick(c, i, true) }})
 	for _, p := range []struct {
